@@ -117,7 +117,9 @@ func init() {
 		"value oracle: what the second client reads is the pre-command value, the post-command value or a miss; after an acknowledged write/delete only the post-command value or a miss",
 		"promptness = the loop returns within the step budget with no read that would wait for ever; wall-clock behaviour is outside the claim; faults in the batching pool belong to C13",
 	}, orcaAssumptions...),
-		Quick: []Job{{Pkg: "./zz_verif/orcah", Func: "ZZFault", Only: []string{"c10-"}, Reach: []string{"loop-returned", "fault-delivered", "read-back"}, Bounds: fb + "orchestrators L1Only, L1L2, L1L2Batch"}},
+		Quick: []Job{{Pkg: "./zz_verif/orcah", Func: "ZZFault", Only: []string{"c10-"}, Reach: []string{"loop-returned", "fault-delivered", "read-back"}, Bounds: fb + "orchestrators L1Only, L1L2, L1L2Batch"},
+			{Pkg: "./handlers/memcached/chunked", Func: "ZZChunkedFault", Setup: "ZZSetup", Only: []string{"c10-"}, Reach: []string{"call-returned", "fault-delivered"},
+				Bounds: "real chunked handler over the memcached model holding a value of 1-3 chunks; get / get-and-touch / delete / touch / set (2 chunks) with one backend request of the exchange (index 0..n+2) answered with one of 10 error statuses or the connection closed before / after / inside (byte 1..30) the reply: the call returns, never reads a dead connection again and again, never waits for a reply that cannot come; values returned are the stored value or a miss; afterwards the connection is either in sync (next set+get answered correctly) or given up with a non-application error"}},
 		Thorough: []Job{{Pkg: "./zz_verif/orcah", Func: "ZZFault", Name: "ZZFault-locked-2keys", Params: map[string]int64{"norca": 9, "faultpositions": 4}, Only: []string{"c10-"}, Reach: []string{"loop-returned", "fault-delivered", "read-back"}, Bounds: fb + "all 9 orchestrator configurations incl. the locking wrappers, fault index 0..3"}}})
 
 	reg(Check{ID: "C12", Level: "model_checking", Assumptions: append([]string{
